@@ -73,6 +73,15 @@ Definition tk_find_token_reverse : list stm :=
 Definition tk_run_search : list stm :=
   [SEv (Call "stats_reset"); SLoop [SIf [SEv (Call "seq_reset")] []]; SEv (Call "apply_global"); SEv (Call "enumerate_lines"); SLoop [SIf [] []; SEv (Rd "lines_searched"); SEv (Wr "lines_searched"); SEv (Call "decode_line"); SLoop [SIf [SEv (Call "apply_single"); SIf [SExit] []] []; SIf [SEv (Call "sequence_search")] [SEv (Call "simple_search")]]]; SEv (Call "process_sequences"); SEv (Rd "lines_searched"); SIf [SLoop [SIf [SLoop []] []]] []; SExit].
 
+Definition tk_tm_init : list stm :=
+  [SEv (Call "event_new"); SEv (Call "event_clear"); SEv (Call "thread_new"); SEv (Wr "running")].
+
+Definition tk_tm_start : list stm :=
+  [SEv (Call "thread_start"); SEv (Wr "running")].
+
+Definition tk_tm_stop : list stm :=
+  [SEv (Rd "running"); SIf [SEv (Call "event_set"); SEv (Call "thread_join"); SEv (Wr "running")] []].
+
 Definition tk_run_single : list stm :=
   [SLoop [SEv (Call "task_execute"); SEv (Call "stats_update")]; SEv (Wr "jobs_completed"); SEv (Wr "total_jobs")].
 
